@@ -14,7 +14,7 @@ from . import dense as dn
 from . import walk
 
 RULE_SUFFIX = (' Plus HISTORY WALKS (ttmon/hist.py): the operations of this property executed inside random call histories over a pool of objects (views, copies, results of earlier calls; '
-               'in-place set_core / reduce_dims / raw core writes in between; a call re-issued after an in-place change of one of its operands) and compared with a dense model of the operands as they are at the call.')
+               'in-place set_core / reduce_dims / raw core writes in between; a call re-issued after an in-place change of one of its operands; every sixth walk starts with objects that have one mode of 65 .. 257) and compared with a dense model of the operands as they are at the call.')
 
 OWN = {
     'C02': ['round'],
@@ -34,7 +34,7 @@ FILLER = ['add', 'sub', 'mul', 'scalar', 'neg', 'matmul', 'kron', 'round', 'geti
 def cases(prop, tier, seed):
     T = tier == 'thorough'
     rng = random.Random('hist|%s|%d' % (prop, seed))
-    return [{'gen': 'hist', 'steps': rng.choice((40, 80, 120)) if T else rng.choice((30, 60)), 'dtype': ['f64', 'c128', 'f64', 'f32'][i % 4], 'views': i % 2 == 1, 'w': i}
+    return [{'gen': 'hist', 'steps': rng.choice((40, 80, 120)) if T else rng.choice((30, 60)), 'dtype': ['f64', 'c128', 'f64', 'f32'][i % 4], 'views': i % 2 == 1, 'w': i, 'long': i % 6 == 5}
             for i in range(60 if not T else 900)]
 
 
@@ -46,6 +46,13 @@ def run(prop, case, ctx):
         w.admit(w.fresh(w.small_shape()))
         n3 = w.small_shape(3)
         w.admit(w.fresh(n3, M=[w.rng.choice((1, 2, 3)) for _ in n3]))
+    if case.get('long'):
+        # objects with one long mode (65 .. 257) join the pool: size-dependent code paths (blocked evaluation, thresholds) are reached by the same judged operations
+        L = w.rng.choice((65, 70, 100, 129, 257))
+        shp = w.rng.choice(([L], [L, 2], [2, L], [2, L, 3]))
+        w.admit(w.fresh(list(shp), view='plain'))
+        w.admit(w.fresh(list(shp), M=[1 if n > 4 else w.rng.choice((1, 2)) for n in shp] if w.rng.random() < 0.5 else [w.rng.choice((1, 2, 3)) if n > 4 else 1 for n in shp], view='plain'))
+        ctx.count('history_walks_with_a_long_mode')
     ctx.count('history_walks')
     for _ in range(case['steps']):
         u = w.rng.random()
